@@ -809,6 +809,16 @@ func verifyFunc(w *World, sp *Specs, fn *ssa.Function, spec *FuncSpec, safety bo
 	// vacuity probe: the precondition must be satisfiable
 	probe := &Oblig{Name: x.key + "#cover:entry", Func: x.key, Kind: "cover", Hyps: append([]*Term(nil), st.pc...), Goal: tFalse, Cover: true, Desc: "the precondition is satisfiable (vacuity probe; must not be unsat)"}
 	x.run(st)
+	// a caller-side assertion that was never generated (its call no longer occurs, or nowhere with the named locals in scope)
+	// must not disappear silently
+	if spec != nil {
+		for _, ca := range spec.CallAsserts {
+			if ca.C.Label != "" && !x.atcallApplied[ca.C.Label] {
+				x.obligs = append(x.obligs, &Oblig{Name: x.key + "#atcall:" + ca.C.Label, Func: x.key, Kind: "atcall", Hyps: nil, Goal: tFalse,
+					Desc: "the call this assertion is about (" + ca.Callee + ") occurs on no explored path: " + ca.C.Src})
+			}
+		}
+	}
 	res.Obligs = append(x.obligs, probe)
 	for n := range x.notes {
 		res.Notes = append(res.Notes, n)
